@@ -16,6 +16,10 @@ import (
 	"encoding/hex"
 	"fmt"
 	"math"
+	"os"
+	"path/filepath"
+	"regexp"
+	"strconv"
 	"strings"
 
 	webp "github.com/deepteams/webp"
@@ -106,8 +110,8 @@ func (o *op) apply(m *mux.Muxer) bool {
 // ---- the harness's own account of what was put in (documented semantics) ----
 
 type shFrame struct {
-	item                       *muxh.PoolItem
-	data                       []byte
+	item                        *muxh.PoolItem
+	data                        []byte
 	dur, ox, oy, blend, dispose int
 }
 
@@ -826,6 +830,7 @@ func main() {
 			evalCase(c, ops, "assemble-then-grow")
 		}
 		frameLimit(c, pool)
+		exactBoundaries(c, g)
 	})
 }
 
@@ -914,6 +919,97 @@ func fileVariants(c *Ctx, file []byte, dm *mux.Demuxer) {
 	} else {
 		c.Count("observed-anmf-reserved-bits-change-the-result")
 	}
+}
+
+// genConst reads an integer constant of the current source from coq/Gen/Consts.v (regenerated by the
+// translator before every run), so that the boundary family follows the source.
+func genConst(name string, fallback int) int {
+	dir := os.Getenv("VERIF_DIR")
+	if dir == "" {
+		dir = "/verif"
+	}
+	b, err := os.ReadFile(filepath.Join(dir, "coq", "Gen", "Consts.v"))
+	if err != nil {
+		return fallback
+	}
+	m := regexp.MustCompile(`Definition ` + name + ` : Z := (-?[0-9]+)\.`).FindSubmatch(b)
+	if m == nil {
+		return fallback
+	}
+	v, err := strconv.Atoi(string(m[1]))
+	if err != nil {
+		return fallback
+	}
+	return v
+}
+
+// exactBoundaries: for every quantity Muxer.validate / the setters compare against a limit, histories
+// on both sides of the comparison (limit-2 .. limit+2), with real bitstream frames and with opaque
+// payloads whose dimensions the muxer cannot read (for those the fits-in-canvas check is skipped, so
+// the range checks are the only guard; they are outside C14's domain and only feed the model/code
+// correspondence).  All of them go through evalCase: correspondence lines + (in domain) the clauses.
+func exactBoundaries(c *Ctx, g *gen) {
+	posOff := genConst("container_MaxPositionOff", 1<<24)
+	maxCanvas := genConst("container_MaxCanvasSize", 1<<24)
+	maxArea := genConst("container_MaxImageArea", 1<<30)
+	maxDur := genConst("mux_maxDuration", 1<<24-1)
+	maxLoop := genConst("mux_maxLoopCount", 65535)
+	small := &g.pool[0]
+	for i := range g.pool {
+		if g.pool[i].Alpha == nil && g.pool[i].W*g.pool[i].H < small.W*small.H {
+			small = &g.pool[i]
+		}
+	}
+	opaque := &muxh.PoolItem{Valid: false}
+	frame := func(real bool, tag byte, dur, ox, oy int) op {
+		if real {
+			return op{K: "AF", Data: small.Data, Item: small, HasOpts: true, Dur: dur, OX: ox, OY: oy}
+		}
+		return op{K: "AF", Data: []byte{tag, 1, 2, 3, 4, 5, 6, 7, 8, 9, 10, 11}, Item: opaque, HasOpts: true, Dur: dur, OX: ox, OY: oy}
+	}
+	n := 0
+	run := func(ops []op) { evalCase(c, ops, "exact-boundary"); n++ }
+	// offsets: offset/2 against MaxPositionOff
+	P := 2 * posOff
+	for _, real := range []bool{true, false} {
+		for _, d := range []int{-2, -1, 0, 1, 2} {
+			for axis := 0; axis < 3; axis++ {
+				ox, oy := 0, 0
+				if axis != 1 {
+					ox = P + d
+				}
+				if axis != 0 {
+					oy = P + d
+				}
+				for _, cs := range [][2]int{{0, 0}, {64, 64}, {maxCanvas, 4}, {4, maxCanvas}} {
+					ops := []op{frame(real, 0x10, 20, 0, 0), frame(real, 0x11, 10, ox, oy)}
+					if cs[0] > 0 {
+						ops = append([]op{{K: "CS", W: cs[0], H: cs[1]}}, ops...)
+					}
+					run(ops)
+				}
+			}
+		}
+	}
+	// canvas width / height against MaxCanvasSize, canvas area against MaxImageArea
+	for _, real := range []bool{true, false} {
+		for _, d := range []int{-1, 0, 1} {
+			run([]op{frame(real, 0x10, 10, 0, 0), {K: "CS", W: maxCanvas + d, H: small.H}})
+			run([]op{frame(real, 0x10, 10, 0, 0), {K: "CS", W: small.W, H: maxCanvas + d}})
+		}
+		for _, wh := range [][2]int{{32768, maxArea/32768 - 1}, {32768, maxArea / 32768}, {32768, maxArea/32768 + 1},
+			{65536, maxArea/65536 - 1}, {65536, maxArea / 65536}, {maxArea / 65536, 65536}} {
+			run([]op{frame(real, 0x10, 10, 0, 0), {K: "CS", W: wh[0], H: wh[1]}})
+		}
+	}
+	// durations against maxDuration (AddFrame and SetFrameDuration), loop count against maxLoopCount
+	for _, d := range []int{-1, 0, 1, 2} {
+		run([]op{frame(true, 0, maxDur+d, 0, 0)})
+		run([]op{frame(true, 0, 5, 0, 0), frame(true, 0, maxDur+d, 0, 0)})
+		run([]op{frame(true, 0, 0, 0, 0), {K: "DU", I: 0, V: maxDur + d}})
+		run([]op{frame(true, 0, 7, 0, 0), {K: "LC", V: maxLoop + d}})
+	}
+	c.Count(fmt.Sprintf("exact-boundary-histories=%d", n))
 }
 
 // frameLimit: 9999 / 10000 / 10001 AddFrame calls with a tiny frame.  What AddFrame accepts must
